@@ -17,6 +17,9 @@ type ConcurrentConfig struct {
 	Procs      int   `json:"procs"`
 	Seed       int64 `json:"seed"`
 	Round      int   `json:"round"`
+	// Creds: credentials every request carries (header -> value prefix); the request's case id is appended
+	// after '#', so that a credential is unique to its request.
+	Creds map[string]string `json:"creds,omitempty"`
 }
 
 // uniqueFill overwrites the leaves of v with values unique to tag (strings, integers, times), so that a
@@ -112,6 +115,11 @@ func RunConcurrent(reg Registry, rec *Recorder, g Group) {
 		req := args[0].Interface().(*httpRequest)
 		cid := caseOf(req)
 		w := &wireCtx{rec: &Recorder{}, caseID: cid, api: api} // wire-level events are not part of the isolation log
+		for h, prefix := range cfg.Creds {
+			if req.Header.Get(h) == "" { // (a scheme's header that is part of the operation's Params travels from there)
+				req.Header.Set(h, prefix+"#"+cid)
+			}
+		}
 		runtime.Gosched()
 		resp, err := w.do(req)
 		errV := reflect.Zero(tError)
@@ -170,6 +178,7 @@ func RunConcurrent(reg Registry, rec *Recorder, g Group) {
 				fixDomain(params, "", rr)
 				cnt := 0
 				uniqueFill(params, j.tag, "", &cnt)
+				applyCreds(params, cfg.Creds, j.id)
 				if f := params.FieldByName("Body"); f.IsValid() && f.Kind() == reflect.Interface {
 					setReader(f, []byte(fmt.Sprintf("raw-body-%d", j.tag)))
 				}
@@ -206,4 +215,28 @@ func RunConcurrent(reg Registry, rec *Recorder, g Group) {
 	}
 	close(start)
 	wg.Wait()
+}
+
+// applyCreds: the generated Params of a secured operation carry the scheme's header as a field; give it the
+// request's credential.
+func applyCreds(params reflect.Value, creds map[string]string, cid string) {
+	hs := params.FieldByName("Headers")
+	if !hs.IsValid() || hs.Kind() != reflect.Struct {
+		return
+	}
+	for h, prefix := range creds {
+		for i := 0; i < hs.NumField(); i++ {
+			if norm(hs.Type().Field(i).Name) != norm(h) {
+				continue
+			}
+			f := hs.Field(i)
+			if wrapperKind(f.Type()) != "" {
+				f.Field(0).SetBool(true)
+				f = f.Field(1)
+			}
+			if f.Kind() == reflect.String {
+				f.SetString(prefix + "#" + cid)
+			}
+		}
+	}
 }
